@@ -440,6 +440,7 @@ func runCases(o *hx.Opts, w *lineio.Writer) error {
 		ins = append(ins, s.excluded(o.Rand(13))...)
 		ins = append(ins, s.rawCases(o.Rand(15))...)
 		ins = append(ins, s.glueCases(o.Rand(16), o.N(25, 400))...)
+		ins = append(ins, s.concatCases(o.Rand(17), o.N(1500, 20000))...)
 		ins = append(ins, s.random(o.Rand(14), o.N(12000, 300000))...)
 		for i, in := range ins {
 			ids = append(ids, fmt.Sprintf("%s-%d", in.Stream, i))
@@ -477,6 +478,15 @@ func runCases(o *hx.Opts, w *lineio.Writer) error {
 			}
 			var out res
 			for i, in := range part {
+				if in.Stream == "concat" {
+					cobs, err := s.execConcat(in)
+					if err != nil {
+						out.err = fmt.Errorf("case %s: %v", ids[lo+i], err)
+						break
+					}
+					out.lines = append(out.lines, &lineio.Case{ID: ids[lo+i], In: in, Obs: cobs})
+					continue
+				}
 				if in.Stream == "glue" {
 					gobs, err := s.execGlue(o.Scratch, in)
 					if err != nil {
